@@ -52,7 +52,24 @@ def shards(tier, seed):
         fam = F.FAMILIES[(seed * 3 + i * 7) % len(F.FAMILIES)]
         sh['enum_merge'] = {'cfg': {'fam': fam, 'kind': kinds[i % 4], 'impl': 'c', 'sizes': None},
                             'universe': 3 if tier == 'quick' else 4}
+        # stored growth sweep: small stored trees of every size 2..14 (thorough: ..24), one insert at the far left, in
+        # the middle and at the far right (leaf, interior and root splits on ghosts), every allocation failed in turn
+        sh['enum_grow'] = {'fam': fam, 'kind': ['BTree', 'TreeSet'][i % 2], 'sizes': [[2, 2], [2, 3], [3, 2], [3, 3]][(i // 2) % 4],
+                           'upto': 14 if tier == 'quick' else 24}
     return out
+
+
+def grow_cases(spec):
+    fam, kind = spec['fam'], spec['kind']
+    is_map = F.is_map(kind)
+    for n in range(2, spec['upto'] + 1):
+        build = [(['set', 10 + 2 * j, j % 6] if is_map else ['add', 10 + 2 * j]) for j in range(n)]
+        probes = []
+        for k in (0, 10 + n, 11 + 2 * n):        # smaller than everything, in a gap in the middle, larger than everything
+            k = k if k % 2 else k + 1
+            probes.append(['set', k, 1, False] if is_map else ['add', k, False])
+        yield {'cfg': {'fam': fam, 'kind': kind, 'impl': 'c', 'sizes': spec['sizes'], 'stored': True, 'census': False},
+               'build': build, 'probes': probes}
 
 
 def _cases(shard):
@@ -149,6 +166,14 @@ def run_shard(shard, ctx):
             if not ctx.run_case(case, run_case):
                 return
         ctx.count('enumerated_merge_triples', n)
+    eg = shard.get('enum_grow')
+    if eg:
+        n = 0
+        for case in grow_cases(eg):
+            n += len(case['probes'])
+            if not ctx.run_case(case, run_case):
+                return
+        ctx.count('enumerated_stored_growth_probes', n)
 
 
 def replay(case, ctx):
